@@ -27,7 +27,8 @@ ASSUMPTIONS = ['differential oracle: the same scenario application without the m
                'a client accepts gzip when its Accept-Encoding gives gzip (or *, absent an explicit gzip entry) q > 0',
                'bodies of uncaught-exception 500s are compared on their first line only (they embed the frame count)']
 
-MW_NAMES = ['gzip', 'cache', 'stats', 'profile', 'cookie', 'ctxproc', 'getparam', 'postdata', 'scriptroot', 'simplectx']
+MW_NAMES = ['gzip', 'cache', 'stats', 'profile', 'cookie', 'ctxproc', 'getparam', 'postdata', 'scriptroot', 'simplectx',
+            'ctxdefaults']
 BODIES = ['empty', 'one', 'kb', 'big', 'rand', 'binary', 'nonascii']
 AE = [None, 'gzip', 'gzip;q=0', '*', 'identity', 'deflate, gzip;q=0.5', '*;q=0', 'identity;q=1, *;q=0', 'gzip;q=0.0, *;q=1',
       'GZIP']
@@ -83,6 +84,9 @@ def make_mw(name):
         return M.ContextProcessor()
     if name == 'simplectx':
         return M.SimpleContextProcessor()
+    if name == 'ctxdefaults':
+        # defaults for keys the endpoint supplies itself (with falsy values): they must not be overwritten
+        return M.ContextProcessor(defaults={'n': 10, 'flag': True, 'name': 'default-name', 'items': [1]})
     if name == 'getparam':
         return M.GetParamMiddleware({'page': int, 'q': str})
     if name == 'postdata':
@@ -104,10 +108,11 @@ def build(stack):
         return Response(body_bytes(b), content_type=ct)
 
     def ep_ctx(request):
-        return {'b': request.args.get('b', 'kb')}
+        return {'b': request.args.get('b', 'kb'), 'n': 0, 'flag': False, 'name': '', 'items': []}
 
     def render(context):
-        return Response(body_bytes(context['b']), content_type='text/html; charset=utf-8')
+        tail = ('|%r|%r|%r|%r' % (context['n'], context['flag'], context['name'], context['items'])).encode('ascii')
+        return Response(body_bytes(context['b']) + tail, content_type='text/html; charset=utf-8')
 
     def ep_stream(request):
         data = body_bytes(request.args.get('b', 'kb'))
@@ -203,7 +208,10 @@ def check_stack(acc, stack, baseline_app, cache):
     except Exception as e:
         acc.violation('C15:construct:%s' % type(e).__name__, 'stack %r cannot be installed: %r' % (stack, e), case0)
         return
-    for rlabel, path, method, qx, body in request_catalogue():
+    passes = [request_catalogue()]
+    if len(stack) <= 2:
+        passes.append(list(reversed(request_catalogue())))       # history dependence: same requests, reverse order
+    for rlabel, path, method, qx, body in itertools.chain(*passes):
         for q in QUERIES:
             query = '&'.join(x for x in (qx, q) if x)
             aes = AE if (rlabel.startswith('resp-') or rlabel.startswith('ctx-') or rlabel in ('raise4', 'ret4', 'fallthrough', 'stream')) else AE[:3]
